@@ -120,6 +120,13 @@ TrOsPrf == IsEv("os.prf") /\ LET ev == T[l]  k == ev.kind  m == ev["in"] IN
   ELSE LET d == CASE k = "prf" -> Prf(ev.key, m, ev.n) [] k = "prf_fixed" -> PrfFixed(ev.key, m, ev.n)
                   [] k = "mac" -> Mac(ev.key, m) [] k = "prf_short" -> PrfShort(ev.key, m, ev.n) IN
        Step(objs, <<0, d, 1>>, <<ev.ret, ev.out, ev.guard>>)
+Pow2(k) == 2^k
+\* declared lengths 2^s + n with s >= 5 (or n > 16) exceed 16: an error, nothing written
+TrOsPrfShortBig == IsEv("os.prf_short_big") /\ LET ev == T[l]
+      big == ev.sin >= 5 \/ ev.sout >= 5 \/ (ev.sin = -1 /\ ev.nin > 16) \/ (ev.sout = -1 /\ ev.nout > 16)
+              \/ (ev.sin \in 0..4 /\ Pow2(ev.sin) + ev.nin > 16) \/ (ev.sout \in 0..4 /\ Pow2(ev.sout) + ev.nout > 16) IN
+  IF big THEN Step(objs, <<-1, 1, 1>>, <<ev.ret, ev.guard, ev.untouched>>)
+  ELSE Step(objs, <<0, 1>>, <<ev.ret, ev.guard>>)
 TrOsMacVerify == IsEv("os.mac_verify") /\ LET ev == T[l] IN
   Step(objs, <<IF Mac(ev.key, ev["in"]) = ev.tag THEN 0 ELSE -1>>, <<ev.ret>>)
 TrOsKmac == IsEv("os.kmac") /\ LET ev == T[l] IN
@@ -130,7 +137,7 @@ TrOsHmac == IsEv("os.hmac") /\ LET ev == T[l] IN
   Step(objs, <<Hmac(SpPar(ev.kind).v, ev.key, ev["in"]), 1>>, <<ev.out, ev.guard>>)
 
 SpongeNext == TrSpInit \/ TrSpAbsorb \/ TrSpSqueeze \/ TrSpHmacFinal \/ TrSpPad \/ TrSpCopy \/ TrSpFree
-              \/ TrOsHash \/ TrOsPrf \/ TrOsMacVerify \/ TrOsKmac \/ TrOsKdf \/ TrOsHmac
+              \/ TrOsHash \/ TrOsPrf \/ TrOsPrfShortBig \/ TrOsMacVerify \/ TrOsKmac \/ TrOsKdf \/ TrOsHmac
 
 -----------------------------------------------------------------------------
 (* C01/C02/C06: AEAD, SIV, ISAP one-shot events                            *)
@@ -260,7 +267,12 @@ PbPrf(kind, pw, x) == IF kind = "pbkdf2" THEN CXof("xof", Bytes(<<80, 66, 75, 68
 TrOsPbkdf2 == IsEv("os.pbkdf2") /\ LET ev == T[l] IN
   Step(objs, <<Pbkdf2(LAMBDA p, x : PbPrf(ev.kind, p, x), ev.pw, ev.salt, ev.count, ev.n), 1>>, <<ev.out, ev.guard>>)
 
-KdfNext == TrHkdfExtract \/ TrHkdfExpand \/ TrHkdfPoke \/ TrHkdfFree \/ TrOsHkdf \/ TrOsPbkdf2
+\* selected blocks T_i of a long PBKDF2 output, each recomputed from its own index
+TrOsPbkdf2Blocks == IsEv("os.pbkdf2_blocks") /\ LET ev == T[l] IN
+  Step(objs, <<[j \in DOMAIN ev.blocks |-> Slice(Pbkdf2Block(LAMBDA p, x : PbPrf(ev.kind, p, x), ev.pw, ev.salt, ev.count, ev.blocks[j].i), 0, Len(ev.blocks[j].t))], 1>>,
+             <<[j \in DOMAIN ev.blocks |-> ev.blocks[j].t], ev.guard>>)
+
+KdfNext == TrOsPbkdf2Blocks \/ TrHkdfExtract \/ TrHkdfExpand \/ TrHkdfPoke \/ TrHkdfFree \/ TrOsHkdf \/ TrOsPbkdf2
 (* C06: ISAP pre-computed key objects                                      *)
 IsapV(sc) == CASE sc = "isap128" -> "128" [] sc = "isap128a" -> "128a" [] sc = "isap80pq" -> "80pq"
 IkSet(ev, pk) == Put(ev.obj, [kind |-> "isapkey", ke |-> pk.ke, ka |-> pk.ka])
